@@ -35,6 +35,8 @@ func init() {
 			return nil
 		},
 		"vfExecLog": vfExecLog,
+		"vfExecSet": vfExecSet,
+		"vfThreads": vfThreads,
 		"vfExecErr": vfExecErr,
 	}
 }
